@@ -81,7 +81,9 @@ def run_unit(unit, rng, ctx):
             data = np.where(rng.uniform(size=shape) < rng.choice([0.0, 0.3, 0.8, 0.95]), 0, data)
             if not data.any():
                 data[tuple(int(rng.integers(s)) for s in shape)] = 1
-        dt_ = [None, None, np.float32, np.int32, np.float64][int(rng.integers(5))]
+        dt_ = [None, None, np.float32, np.int32, np.float64, np.uint8, np.int16, np.uint16, np.int8][int(rng.integers(9))]
+        if dt_ in (np.uint8, np.int8, np.int16, np.uint16) and data.max() > np.iinfo(dt_).max:
+            data = np.minimum(data, np.iinfo(dt_).max)
         if dt_ is not None:
             data = data.astype(dt_)
             if not data.any():
